@@ -9,6 +9,8 @@
  R14c the four _integer_approximation clones agree on the facts that bound scale, shift and
       the 32-bit scaled bias.
  R14i graph rewrite: remove_relu replaces every ReLU spelling the graph passes support.
+ R14j the scale_bit / shift_pos options requested through integerize_arch reach the constructor
+      of every back-end layer that declares them.
  R14d use-after-overwrite / axis consistency in the dilation handling.
  R14f weights are integerised (dequantize switched off first) before the weight scale is
       read; the bias is integerised with (s_x, s_w).
@@ -671,8 +673,88 @@ def r14i(ctx):
            where(rr))
 
 
+def r14j(ctx):
+    """Declared ranges: the property's ranges are the ones *requested* -- the scale_bit /
+    shift_pos passed to integerize_arch.  Every back-end layer class whose constructor declares
+    options (parameters with defaults, beyond the layer and its quantizers) must be constructed
+    with the options dictionary the caller passed: integerize_arch hands its options parameter to
+    the export of the fake-quantised layer, and that export forwards it to the constructor
+    obtained from backend_factory (as ``**options`` or option by option).  A layer built with
+    the default bit-widths stores scales / shifts outside the requested range."""
+    repo = ctx.repo
+    ia = repo.fn('backends.base.integerize_arch')
+    ia_params = ia.params
+    if len(ia_params) < 3:
+        raise AnalysisError(f'{ia.qualname}: no options parameter')
+    opt_par = ia_params[2]
+    # 1. integerize_arch -> export: which positional slot / keyword receives the options
+    slots = set()
+    n_calls = 0
+    for p in returning(paths(repo, ia)):
+        for e in p.events:
+            if e.kind != 'call':
+                continue
+            t = e.data[0]
+            mc = method_call(t)
+            if mc is None or mc[1] != 'export':
+                continue
+            n_calls += 1
+            got = [('pos', i) for i, a in enumerate(mc[2]) if a == ('param', opt_par)] + \
+                  [('kw', k) for k, v in mc[3] if v == ('param', opt_par)]
+            ctx.ob('R14j', f'integerize_arch hands {opt_par} to export [{where(ia, e.node)}]',
+                   bool(got), f'{show(t)[:120]} receives the options' if got else
+                   f'{show(t)[:160]} does not receive {opt_par}: every integer layer is built '
+                   f'with the default scale_bit / shift_pos, so the stored scales and shifts are '
+                   f'outside the ranges the caller declared', where(ia, e.node))
+            slots |= set(got)
+    if not n_calls:
+        raise AnalysisError(f'{ia.qualname}: no export call found')
+    n_decl = 0
+    for reg in ('match_layer_map', 'maupiti_layer_map'):
+        for kq, ci in sorted(layer_map(repo, reg).items()):
+            init = repo.find_method(ci, '__init__')
+            opts = sorted(init.defaults()) if init is not None else []
+            if not opts:
+                continue
+            n_decl += 1
+            kci = repo.classes.get(repo.canonical(kq)) or repo.classes.get(kq)
+            exp = repo.find_method(kci, 'export') if kci is not None else None
+            if exp is None:
+                raise AnalysisError(f'{kq}: export not found')
+            eparams = exp.params
+            names = {eparams[i] for k, i in slots if k == 'pos' and i < len(eparams)} | \
+                    {i for k, i in slots if k == 'kw' and i in eparams}
+            ok, seen, why = True, 0, ''
+            for p in returning(paths(repo, exp)):
+                for e in p.events:
+                    if e.kind != 'call':
+                        continue
+                    t = e.data[0]
+                    if not any(is_call(x, 'backend_factory') for x in subterms(t[1])):
+                        continue
+                    seen += 1
+                    star = any(k == '**' and any(y[0] == 'param' and y[1] in names for y in subterms(v))
+                               for k, v in t[3])
+                    each = all(any(k == o and any(y[0] == 'param' and y[1] in names
+                                                  for y in subterms(v)) for k, v in t[3])
+                               for o in opts)
+                    if not (star or each):
+                        ok = False
+                        why = f'{where(exp, e.node)}: {show(t)[:140]}'
+            if not seen:
+                raise AnalysisError(f'{exp.qualname}: no construction through backend_factory')
+            ctx.ob('R14j', f'{kci.name}.export forwards the options {opts} to {ci.name}', ok,
+                   f'the constructor obtained from backend_factory receives **{sorted(names)}' if ok
+                   else f'{why} builds the {ci.name} without the options {opts} requested through '
+                   f'integerize_arch: it keeps the defaults, so its scale can reach '
+                   f'2**(default scale_bit - 1) and its shift the default shift_pos -- outside '
+                   f'the declared ranges', where(exp))
+    ctx.floor('R14j', 'back-end layer classes declaring options', n_decl, 2)
+
+
 def run(ctx):
     r14i(ctx)
+    r14j(ctx)
     classes = backend_classes(ctx)
     ctx.floor('C14', 'back-end layer classes', len(classes), 4)
     r14a(ctx, classes)
